@@ -48,10 +48,15 @@ def run_impl(cfg, kind, lines, guard=False, timeout=120, per_case_cpu=20):
     'CRASH <rc> <first line of the report>' and the batch resumes after it"""
     out = []
     cmd = [harness(cfg, kind)] + (["--guard"] if guard else [])
+    if kind == "fail":
+        env_fail = dict(SAN_ENV)
+        env_fail["ASAN_OPTIONS"] = SAN_ENV["ASAN_OPTIONS"] + ":detect_stack_use_after_return=1"
+    else:
+        env_fail = SAN_ENV
     i = 0
     n = len(lines)
     while i < n:
-        rc, got, err = run_proc(cmd, lines[i:], timeout, SAN_ENV, limit_cpu=max(per_case_cpu, 60))
+        rc, got, err = run_proc(cmd, lines[i:], timeout, env_fail, limit_cpu=max(per_case_cpu, 60))
         if got and got[-1] == "":
             got = got[:-1]
         complete = got if rc == 0 else got[:len(got)]
